@@ -32,7 +32,7 @@ def run(chk):
     b = core.standard_build(chk)
     import kernpy as kp
     octs = list(range(-1, 10))
-    if chk.tier == 'thorough' or b.drift or not b.proof_ok:
+    if chk.tier == 'thorough' or b.drift or not b.proof_ok or not b.modelrun_ok:
         octs += [-30, -12, 15, 40]
     octs += [chk.rng.randint(-25, 30) for _ in range(2)]
     grid = [(l, a, o) for l in range(7) for a in range(-3, 4) for o in octs]
